@@ -4,7 +4,7 @@
      * on the canonical text of a well-formed element it returns exactly that element. *)
 From Coq Require Import ZArith NArith List Bool Lia ZifyBool ZifyN.
 Require Import Webob.Lib.Val Webob.Lib.PyStr Webob.Lib.Rx Webob.Gen.C03_regexes Webob.Model.C03_scan
-               Webob.Proofs.C03_scan Webob.Model.C19_acceptstr Webob.Proofs.C19_quote Webob.Proofs.C19_local
+               Webob.Proofs.C03_scan Webob.Model.C19_acceptstr Webob.Spec.C19_spec Webob.Proofs.C19_quote Webob.Proofs.C19_local
                Webob.Proofs.C19_simple.
 Import ListNotations.
 Local Open Scope N_scope.
@@ -352,7 +352,7 @@ Proof.
     + apply IH; cbn [length] in *; lia.
 Qed.
 
-Definition scanA (s : str) : list accept_el := scan_accept (S (length s)) s.
+(* scanA : Spec/C19_spec.v *)
 Lemma scanA_nil : scanA [] = []. Proof. reflexivity. Qed.
 Lemma scanA_hit s e r : take_accept_el s = Some (e, r) -> scanA s = e :: scanA r.
 Proof.
